@@ -117,6 +117,11 @@ func runC11(c *ev.Case, ctx *lib.Ctx, al []appAVP, cc c11Case) {
 	settings := &sm.Settings{OriginHost: "srv.local", OriginRealm: "realm.local", VendorID: 13, ProductName: "verif"}
 	conf := []datatype.Address{datatype.Address(net.IP{192, 0, 2, 1}), datatype.Address(net.ParseIP("2001:db8::7"))}
 	settings.HostIPAddresses = conf[:cc.nAddrs]
+	if cc.nAddrs == 1 && (c.I/5)%2 == 1 {
+		// the same configuration through the deprecated singular field
+		settings.HostIPAddresses, settings.HostIPAddress = nil, conf[0]
+		c.Class("configured-through-deprecated-HostIPAddress")
+	}
 	machine := sm.New(settings)
 	var mu sync.Mutex
 	var probeMeta []*smpeer.Metadata
